@@ -226,6 +226,8 @@ def shard(sh):
     hs = {}
     try:
         for k in range(sh["n"]):
+            if run.enough():
+                break
             case = make_case(rng)
             run.case(common.sha12(case))
             v, out, app = run_case(run, e2, hs, case)
